@@ -13,7 +13,7 @@ from lib import tlc
 from lib.evidence import Report
 from checks.serial_check import scenario, run_property
 
-ALL_OPS = ['copy', 'alias', 'bin', 'scale', 'aug', 'ufunc', 'out', 'setall', 'setitem', 'comp', 'abs']
+ALL_OPS = ['copy', 'alias', 'bin', 'scale', 'aug', 'augscalar', 'ufunc', 'out', 'setall', 'setitem', 'comp', 'abs']
 
 
 def vs_run(wd, maxlen, simulate=None, seed=0):
@@ -59,6 +59,11 @@ def run_level_scenarios(tier):
            'ARK54', 'ARK548L2SA', 'ARK32']
     S.append(scenario('rk_np1', dict(NP=1, MAXITER=1, TEND=12, DT0=4), mc=False, real=[dict(sweeper=s, restol=-1.0) for s in rks]))
     S.append(scenario('rk_np2', dict(NP=2, MAXITER=1, TEND=16, DT0=4, JAC=False), mc=False, real=[dict(sweeper=s, restol=-1.0) for s in rks]))
+    # DAE sweepers (nodes updated in place) with per-iteration logging of the solution
+    S.append(scenario('dae_np1', dict(NP=1, MAXITER=4, TEND=8, DT0=4), mc=False,
+                      real=[dict(dae=s, restol=r, log_iter=True) for s in ('SemiImplicitDAE', 'FullyImplicitDAE') for r in (1e-3, 1e-12)]))
+    S.append(scenario('iterlog_np2', dict(NP=2, MAXITER=4, TEND=16, DT0=4), mc=False,
+                      real=[dict(problem=p, restol=1e-9, log_iter=True) for p in ('test', 'heat', 'imex')]))
     # scripted runs with restarts: the value handed to the next block and the logged solutions
     S.append(scenario('rs_np3', dict(NP=3, MAXITER=1, TEND=12, DT0=4, MAXR=1), rs=(False, True), dtm=(0, 1), mc=False,
                       explore=800 if tier == 'quick' else 8000))
@@ -100,7 +105,7 @@ def run(tier, seed):
             for b in bad[:2]:
                 rep.violation('vs.' + ('sharing' if 'memory' in b['problems'][0] else 'type' if 'type' in b['problems'][0] else 'value'),
                               dict(kind='value-semantics', **b))
-        nt = sum(1 for p in progs if any(st[0] in ('setall', 'setitem', 'comp', 'aug', 'out') for st in p['prog']))
+        nt = sum(1 for p in progs if any(st[0] in ('setall', 'setitem', 'comp', 'aug', 'augscalar', 'out') for st in p['prog']))
         rep.cov['programs'] = len(progs)
         rep.cov['program_family_executions'] = total
         if progs:
